@@ -856,6 +856,117 @@ def r03_20(run, model):
     run.floor("core lets built by the match compiler", n, 8)
 
 
+def r03_22(run, model):
+    run.rule("R03.22", "a call is related to its callee as a whole function type: in every typer function that elaborates a call "
+                       "(record_call_elab), each list of argument types - the second component of an argument-checking helper's result, or a "
+                       "vector filled with `.get_ty()` of the arguments - becomes `params` of a `TFunc` that is an operand of a pushed "
+                       "constraint. Relating only the result types leaves the number of arguments unchecked")
+    CHECK = "crates/compiler/src/typer/check.rs"
+    helpers = {g.name for g in model.fns(CHECK) if re.search(r"^\(.*Vec<(tast::)?Ty>.*\)$", (g.node.get("ret") or "").replace(" ", ""))}
+    n = 0
+    for f in model.fns(CHECK):
+        if f.body is None or not any(True for _ in S.calls(f.body, "record_call_elab")):
+            continue
+        lists = []   # (name or None, node, how)
+        for l in S.find(f.body, "Local"):
+            init = l.get("init")
+            if init is None:
+                continue
+            if l["pat"]["k"] == "PTuple" and init["k"] in ("Call", "MethodCall") and S.callee_name(init) in helpers:
+                g = model.fn(S.callee_name(init), CHECK)
+                comps = re.sub(r"^\(|\)$", "", (g.node.get("ret") or "").replace(" ", "")).split(",")
+                for i, cty in enumerate(c for c in comps if c):
+                    if re.search(r"Vec<(tast::)?Ty>", cty) and i < len(l["pat"]["elems"]):
+                        e = l["pat"]["elems"][i]
+                        lists.append((e["name"] if e["k"] == "PIdent" else None, l, f"component {i} of {S.callee_name(init)}(..)"))
+            elif l["pat"]["k"] == "PIdent":
+                nm = l["pat"]["name"]
+                if any(c["k"] == "MethodCall" and c["method"] == "push" and S.is_path(c["recv"], nm) and
+                       any(x["k"] == "MethodCall" and x["method"] == "get_ty" for x in S.walk(c)) for c in S.walk(f.body)):
+                    # only the accumulator of this scope (the same name is reused arm by arm)
+                    lists.append((nm, l, "vector of .get_ty()"))
+        par = S.Parents(f.body)
+        for nm, l, how in lists:
+            n += 1
+            scope = next((a for a in par.ancestors(l) if a["k"] == "Block"), f.body)
+            ok, why = False, "the list is discarded (`_`)"
+            if nm is not None:
+                why = "no TFunc { params: .. } built from it reaches a pushed constraint"
+                for st in S.find(scope, "Struct"):
+                    if st["segs"][-1] != "TFunc":
+                        continue
+                    pf = next((fl for fl in st["fields"] if fl["name"] == "params"), None)
+                    if pf is None or nm not in S.idents(pf["expr"]) or (st["sp"][0], st["sp"][1]) < (l["sp"][0], l["sp"][1]):
+                        continue
+                    holder = next((a for a in par.ancestors(st) if a["k"] == "Local"), None)
+                    direct = any(a["k"] == "MethodCall" and a["method"] == "push_constraint" for a in par.ancestors(st))
+                    via = False
+                    if holder is not None and holder["pat"]["k"] == "PIdent":
+                        hn = holder["pat"]["name"]
+                        via = any(c["k"] == "MethodCall" and c["method"] == "push_constraint" and hn in S.idents(c) for c in S.walk(scope))
+                    if direct or via:
+                        ok, why = True, f"params of the call-site function type at line {st['sp'][0]}, which is an operand of push_constraint"
+                        break
+            key = f"{f.name}|argument types ({how}) #{sum(1 for x in lists[:lists.index((nm, l, how))] if x[2] == how) + 1} reach a constraint as a function type"
+            run.ob("R03.22", key, ok, site(CHECK, l["sp"]), why,
+                   witness="fn scale(x: int32) -> int32 { x * 2 } .. scale(3, \"unused\"), scale(): accepted; Core carries calls whose argument "
+                           "lists disagree with the signature, the Go is rejected")
+    run.floor("argument-type lists in call elaboration", n, 6)
+
+
+def r03_23(run, model):
+    run.rule("R03.23", "the checker and the TAST builder give a literal the same type: for every literal form whose build_expr arm states a "
+                       "fixed type (it does not read the recorded results), check_expr has no arm of its own for that form (it is typed by "
+                       "inference, whatever type is expected) and infer_expr's arm names that same type and no other")
+    CHECK = "crates/compiler/src/typer/check.rs"
+    BUILD = "crates/compiler/src/typer/tast_builder.rs"
+    b = model.fn("build_expr", BUILD)
+
+    def head(arm, rel):
+        m_ = re.match(r"hir::Expr::(\w+)", S.norm_ws(run.facts.text(rel, arm["pat"]["sp"])))
+        return m_.group(1) if m_ and "|" not in S.norm_ws(run.facts.text(rel, arm["pat"]["sp"])) else None
+
+    def const_tys(node):
+        return {x["segs"][-1] for x in S.walk(node) if x["k"] == "Path" and len(x["segs"]) >= 2 and x["segs"][-2] == "Ty" and re.match(r"T[A-Z]", x["segs"][-1])}
+
+    fixed = {}
+    for m_ in S.find(b.body, "Match"):
+        for arm in m_["arms"]:
+            h = head(arm, BUILD)
+            if h is None or "results" in S.idents(arm["body"]) or any(c["k"] in ("Call", "MethodCall") and S.callee_name(c) in ("build_expr", "build_pat") for c in S.walk(arm["body"])):
+                continue
+            tys = const_tys(arm["body"])
+            if len(tys) == 1:
+                fixed[h] = (next(iter(tys)), arm)
+        break
+    if len(fixed) < 10:
+        raise AnalysisIncomplete(f"build_expr: only {len(fixed)} literal arms with a fixed type found")
+
+    def arms_of(fname):
+        f = model.fn(fname, CHECK, impl="Typer")
+        out = {}
+        for m_ in S.find(f.body, "Match"):
+            for arm in m_["arms"]:
+                txt = S.norm_ws(run.facts.text(CHECK, arm["pat"]["sp"]))
+                for v in re.findall(r"hir::Expr::(\w+)", txt):
+                    out.setdefault(v, []).append(arm)
+            break
+        return out
+    chk, inf = arms_of("check_expr"), arms_of("infer_expr")
+    for v, (ty, barm) in sorted(fixed.items()):
+        own = chk.get(v, [])
+        run.ob("R03.23", f"check_expr|{v} has no checking rule of its own (the builder types it {ty})", not own, site(CHECK, (own or [barm])[0]["sp"]) if own else site(BUILD, barm["sp"]),
+               f"check_expr arms for {v}: {len(own)}",
+               witness="let big: int64 = 5000000000 is accepted by a checking rule that takes the expected type; the builder rebuilds the literal "
+                       "as int32 0: `big` is bound at int32 and used at int64 in every dump")
+        ia = inf.get(v, [])
+        tys = set().union(*[const_tys(a["body"]) for a in ia]) if ia else set()
+        run.ob("R03.23", f"infer_expr|{v} is inferred at the builder's type {ty}", bool(ia) and tys == {ty}, site(CHECK, (ia or [barm])[0]["sp"]) if ia else site(BUILD, barm["sp"]),
+               f"types named in the inference arm: {sorted(tys) or 'none'}",
+               witness="a literal recorded at one type and rebuilt at another: binder and use disagree in TAST, Core, Mono, Lift and ANF")
+    run.floor("literal forms with a fixed type in build_expr", len(fixed), 15)
+
+
 def r03_21(run, model):
     run.rule("R03.21", "an unknown field is an error in every pipeline: the function that gives a struct field access its type answers from "
                        "the struct's declared fields only - no field name is special-cased (a name the editor inserts for completion is an "
@@ -911,6 +1022,8 @@ def run(run, model):
     run.try_rule(r03_19, model)
     run.try_rule(r03_20, model)
     run.try_rule(r03_21, model)
+    run.try_rule(r03_22, model)
+    run.try_rule(r03_23, model)
     from rules import c17
     run.try_rule(c17.r17_9, model)
     run.try_rule(c07.r07_4, model)
